@@ -1,6 +1,8 @@
 (* Executable entry points of the C09 model and specification oracles. *)
 From Verif Require Import Lib.Bytes Json.Ast Json.Parse Auth.StateNeeded Auth.Checker.
-From Verif Require Import Auth.Types Auth.Versions Auth.Model Auth.CheckerAuth.
+From Verif Require Import Auth.Types Auth.Versions Auth.Abs Auth.Model Auth.CheckerAuth Auth.C09Needed.
+(* the unqualified event accessors below are the ones of Auth/StateNeeded.v *)
+From Verif Require Import Auth.StateNeeded.
 Open Scope N_scope.
 
 Definition nl : bytes := [10].
@@ -219,6 +221,35 @@ Definition run_sequence (args : list bytes) : bytes :=
   | _ => bs "badargs"
   end.
 
+(* [ver; event; observable = StateNeededForAuth tuples of the implementation]:
+   every (type, state_key) pair under which the check consults the provider (needed7, the
+   read-set proved sufficient in Props/C09.v) is among the tuples the implementation names.
+   Demanded on the domain of the auth model (member names spelled exactly, exact_keys).
+   Not demanded for a member event whose content is null: the needed-state computation fails
+   for it, the check rejects it whatever the state, and only the class of the rejection
+   (not allowed / error from the user ID lookup) depends on whether a create event is supplied. *)
+Definition prop_readset_within_needed (args : list bytes) : bytes :=
+  match args with
+  | [_ver; ev; obs] =>
+      match parse_json ev with
+      | Some e =>
+          let lines := split_on 10 (length obs) obs in
+          let line (k : bytes * bytes) := fst k ++ [32] ++ hex_of_bytes (snd k) in
+          let null_member :=
+            match Abs.kind_of (Abs.ev_type e), Abs.content_of e with
+            | KMember, Abs.CoNull => true
+            | _, _ => false
+            end in
+          if null_member || negb (exact_keys e) then bs "ok"
+          else match filter (fun k => negb (mem_bytes (line k) lines)) (needed7 e) with
+               | [] => bs "ok"
+               | k :: _ => bs "FAIL the check reads a tuple that is not needed: " ++ line k
+               end
+      | None => bs "badargs"
+      end
+  | _ => bs "badargs"
+  end.
+
 Definition ops_C09 : list (bytes * (list bytes -> bytes)) :=
   [ (bs "C09.state_needed", run_state_needed);
     (bs "C09.needed_proto", run_needed_proto);
@@ -227,4 +258,5 @@ Definition ops_C09 : list (bytes * (list bytes -> bytes)) :=
     (bs "C09.prop.add_auth_events_covers", prop_add_auth_events_covers);
     (bs "C09.prop.reuse_transparent", prop_reuse_transparent);
     (bs "C09.prop.invariance", prop_invariance);
+    (bs "C09.prop.readset_within_needed", prop_readset_within_needed);
     (bs "C09.prop.all_equal", prop_all_equal) ].
